@@ -865,4 +865,187 @@ theorem gen_permute_lawful_instance :
 
 end PermGen
 
+/-! ## Audit (g27): non-vacuity instances for hypothesis sets that had none -/
+section Audit
+open Masks MasksPf Nw GenNet Model BnafGenPf
+
+/-- `planar_get_planar_lawful`'s hypothesis set is satisfiable from a RAW parameter vector (n = 2, `w = (1, -2)`, `u = (4, 3)`,
+`b = 7`, slope `1/2`); here `w·u = -2 < 0`, so `get_act_scale` really has to correct `u`. -/
+theorem planar_get_planar_audit_instance :
+    (Planar.lreluBij (Planar.getPlanar 2 [1, -2, 4, 3, (7 : ℝ)]) (1 / 2) : Bij (List ℝ) Unit ℝ).Lawful
+      {x | x.length = 2} {y | y.length = 2} :=
+  planar_get_planar_lawful (n := 2) [1, -2, 4, 3, 7] rfl (by simp [ParamsPf.jdot_eq]; norm_num) (by norm_num) (by norm_num)
+
+/-- `TriPf.LowerTri` is inhabited by a non-diagonal matrix with a negative diagonal entry, and `triangular_solve_lower` applies. -/
+theorem lowerTri_audit_instance :
+    TriPf.LowerTri 2 [[2, 0], [1, -3]] ∧
+    Tri.matVec [[2, 0], [1, -3]] (Tri.solveLower [[2, 0], [1, -3]] [4, (5 : ℝ)]) = [4, 5] := by
+  have h : TriPf.LowerTri 2 [[2, 0], [1, -3]] := by
+    refine ⟨⟨rfl, by intro r hr; simp at hr; rcases hr with rfl | rfl <;> rfl⟩, ?_, ?_⟩
+    · intro i j hij hj
+      have : i = 0 ∧ j = 1 := by omega
+      obtain ⟨rfl, rfl⟩ := this
+      simp [TriPf.entry]
+    · intro i hi
+      have : i = 0 ∨ i = 1 := by omega
+      rcases this with rfl | rfl <;> simp [TriPf.entry]
+  exact ⟨h, (triangular_solve_lower h [4, 5] rfl).1⟩
+
+/-- `TriPf.UpperTri` likewise. -/
+theorem upperTri_audit_instance :
+    TriPf.UpperTri 2 [[2, 1], [0, -3]] ∧
+    Tri.solveUpper [[2, 1], [0, -3]] (Tri.matVec [[2, 1], [0, -3]] [4, (5 : ℝ)]) = [4, 5] := by
+  have h : TriPf.UpperTri 2 [[2, 1], [0, -3]] := by
+    refine ⟨⟨rfl, by intro r hr; simp at hr; rcases hr with rfl | rfl <;> rfl⟩, ?_, ?_⟩
+    · intro i j hji hi
+      have : i = 1 ∧ j = 0 := by omega
+      obtain ⟨rfl, rfl⟩ := this
+      simp [TriPf.entry]
+    · intro i hi
+      have : i = 0 ∨ i = 1 := by omega
+      rcases this with rfl | rfl <;> simp [TriPf.entry]
+  exact ⟨h, (triangular_solve_upper h [4, 5] rfl).2⟩
+
+/-- `triangular_of_raw_lawful` / `gen_triangular_of_raw_lawful`: `Square`, `raw.length`, `loc.length` jointly satisfiable with a
+full (non-triangular) raw array and negative raw diagonal parameters. -/
+theorem triangular_of_raw_audit_instance :
+    ((Tri.ofRaw true [-1, 2] [[5, 6], [7, 8]] [1, -1]).toBij : Bij (List ℝ) Unit ℝ).Lawful {x | x.length = 2} {y | y.length = 2} ∧
+    (TriGen.toBij (TriGen.unwrap (TriGen.ofRaw false [-1, 2] [[5, 6], [7, 8]] [1, -1])) : Bij (List ℝ) Unit ℝ).Lawful
+      {x | x.length = 2} {y | y.length = 2} := by
+  have hsq : TriPf.Square 2 [[5, 6], [7, (8 : ℝ)]] := by constructor <;> simp
+  exact ⟨triangular_of_raw_lawful true _ _ _ hsq rfl rfl, gen_triangular_of_raw_lawful false _ _ _ hsq rfl rfl⟩
+
+/-- `gen_triangular_init_lawful`: the hypothesis `init … = .ok s` is inhabited (2 × 2, broadcast `loc` of size 1). -/
+theorem gen_triangular_init_audit_instance :
+    ∃ s, TriangularAffine.init [3] (.mat [[1, 2], [3, (-4 : ℝ)]]) true = .ok s ∧
+      (TriGen.toBij (TriGen.unwrap s) : Bij (List ℝ) Unit ℝ).Lawful {x | x.length = 2} {y | y.length = 2} := by
+  obtain ⟨s, hs⟩ : ∃ s, TriangularAffine.init [3] (.mat [[1, 2], [3, (-4 : ℝ)]]) true = .ok s :=
+    (TriGenPf.gen_init_accepts_iff _ _ _).mpr (by simp [TriPrims.NdArr.ndim, TriPrims.NdArr.shapeGet, TriPrims.NdArr.shape])
+  have hsq : TriPf.Square 2 [[1, 2], [3, (-4 : ℝ)]] := by constructor <;> simp
+  exact ⟨s, hs, gen_triangular_init_lawful _ _ _ hsq hs⟩
+
+/-- `gen_coupling_lawful` at `ℝ` (the pre-existing `gen_net_instance` evaluates at `ℤ` only): a conditional coupling object on
+`ℝ³` with a non-linear conditioner and the affine family of scale 2. -/
+theorem gen_coupling_audit_instance :
+    (Coupling.toBij (CouplingObj.mk' 1 3 (some 1) (fun l => l.map fun a => a * a + 1) NetLawful.exampleFamily)).Lawful
+      {x | x.length = 3 ∧ ∀ t ∈ x.drop 1, t ∈ univ} {y | y.length = 3 ∧ ∀ t ∈ y.drop 1, t ∈ univ} :=
+  gen_coupling_lawful (CouplingObj.mk' 1 3 (some 1) _ NetLawful.exampleFamily) univ univ NetLawful.exampleFamily_lawful
+
+/-- `gen_maf_lawful` on a concrete well-shaped net. -/
+theorem gen_maf_audit_instance :
+    (Maf.toBij (MafObj.ofNet mafExample NetLawful.exampleFamily)).Lawful
+      {x | x.length = 2 ∧ ∀ t ∈ x, t ∈ univ} {y | y.length = 2 ∧ ∀ t ∈ y, t ∈ univ} :=
+  gen_maf_lawful mafExample FlowsPf.mafExample_wellShaped NetLawful.exampleFamily univ univ NetLawful.exampleFamily_lawful
+
+/-! ### `bnaf_inverse_tolerance`: the hypothesis `Bisection.LipTriangular (bnafTransform …)` had NO inhabitant on any BNAF object.
+Below: a depth-0 network (`dim = 2`, one `(1,1)`-block layer with mixed-sign raw weights, weight-normalised, softplus diagonal) — its
+forward map is `(a, b) ↦ (A·a, C·a + D·b + 1)` with `A, D > 0`, `C < 0` — satisfies it, and with it the WHOLE hypothesis set of
+`bnaf_inverse_tolerance` (for `max_iter` large enough).  Depth 0 means no activation is applied: for `depth ≥ 1` (any activation) the
+hypothesis remains undischarged. -/
+noncomputable def auditBnafL0 : BnafLayer ℝ :=
+  { b0 := 1, b1 := 1, n := 2, weight := [[1, 5], [-3, 2]], bias := [0, 1], scaleRaw := [0, -1] }
+
+theorem auditL0_ok : NetLawful.BnafOK 2 0 1 [auditBnafL0] none := by
+  refine ⟨by norm_num, by decide, ?_, by simp⟩
+  intro L hL
+  simp only [List.mem_cons, List.not_mem_nil, or_false] at hL
+  subst hL
+  exact ⟨⟨⟨rfl, by intro row hrow; simp [auditBnafL0] at hrow; rcases hrow with rfl | rfl <;> rfl⟩, rfl, rfl⟩, rfl⟩
+
+
+noncomputable def spA : ℝ := Real.log (1 + 1) * Real.log (1 + Real.exp 1) / √(Real.log (1 + Real.exp 1) * Real.log (1 + Real.exp 1))
+noncomputable def spN : ℝ := √(3 * 3 + Real.log (1 + Real.exp 2) * Real.log (1 + Real.exp 2))
+noncomputable def spC : ℝ := -(Real.log (1 + Real.exp (-1)) * 3) / spN
+noncomputable def spD : ℝ := Real.log (1 + Real.exp (-1)) * Real.log (1 + Real.exp 2) / spN
+
+theorem auditL0_form (act : ℝ → ℝ) (a b : ℝ) :
+    bnafTransform act [auditBnafL0] none [a, b] [] = [spA * a, spC * a + spD * b + 1] := by
+  have hm : blockTrilMask 1 1 2 0 = [[true, false], [true, true]] := by decide
+  have hd : blockDiagMask 1 1 2 = [[true, false], [false, true]] := by decide
+  simp only [spA, spC, spD, spN]
+  simp [bnafTransform, bnafForward, BnafLayer.apply, linearApply, BnafLayer.unwrapW, BnafLayer.preNorm, auditBnafL0, hm, hd,
+    whereMask, whereMat, Jnp.dot, Jnp.sum]
+
+theorem spA_pos : 0 < spA := by
+  have h1 : 0 < Real.log (1 + Real.exp 1) := Leaves.softplus_pos 1
+  have h0 : 0 < Real.log (1 + 1) := Real.log_pos (by norm_num)
+  unfold spA
+  have : 0 < √(Real.log (1 + Real.exp 1) * Real.log (1 + Real.exp 1)) := Real.sqrt_pos.mpr (by positivity)
+  positivity
+
+theorem spD_pos : 0 < spD := by
+  have h1 : 0 < Real.log (1 + Real.exp 2) := Leaves.softplus_pos 2
+  have h0 : 0 < Real.log (1 + Real.exp (-1)) := Leaves.softplus_pos (-1)
+  have : 0 < spN := Real.sqrt_pos.mpr (by positivity)
+  unfold spD
+  positivity
+
+theorem auditL0_lip (act : ℝ → ℝ) :
+    Bisection.LipTriangular (fun x => bnafTransform act [auditBnafL0] none x []) 2 (min spA spD) |spC| where
+  m_pos := lt_min spA_pos spD_pos
+  L_nonneg := abs_nonneg _
+  length_eq := by
+    intro x hx
+    obtain ⟨a, b, rfl⟩ := List.length_eq_two.mp hx
+    simp [auditL0_form]
+  slope := by
+    intro x i hx hi s t hst
+    obtain ⟨a, b, rfl⟩ := List.length_eq_two.mp hx
+    have hts : 0 ≤ t - s := sub_nonneg.mpr hst
+    interval_cases i
+    · simp only [List.set_cons_zero, auditL0_form, List.getD_cons_zero]
+      nlinarith [min_le_left spA spD]
+    · simp only [List.set_cons_succ, List.set_cons_zero, auditL0_form, List.getD_cons_succ, List.getD_cons_zero]
+      nlinarith [min_le_right spA spD]
+  cont := by
+    intro x i hx hi
+    obtain ⟨a, b, rfl⟩ := List.length_eq_two.mp hx
+    interval_cases i <;> simp [auditL0_form] <;> fun_prop
+  lip := by
+    intro x x' i hx hx' hi he
+    obtain ⟨a, b, rfl⟩ := List.length_eq_two.mp hx
+    obtain ⟨a', b', rfl⟩ := List.length_eq_two.mp hx'
+    interval_cases i
+    · simp [auditL0_form] at he ⊢; rw [he]; simp
+    · simp [auditL0_form] at he ⊢; rw [he]
+      have : spC * a + spD * b' - (spC * a' + spD * b') = spC * (a - a') := by ring
+      rw [this, abs_mul]
+
+/-- every hypothesis of `bnaf_inverse_tolerance` (`BnafOK`, `LipTriangular`, `inverterArgsOk`, `hxsD`, `hε`, `hf1`, `hf2`) holds jointly:
+bracket `[-10, 10]`, `tol = 1e-3`, preimage `(1, -2)`, `D = 0`, `ε = 1`, some finite `max_iter`. -/
+theorem bnaf_inverse_tolerance_audit_instance (act : ℝ → ℝ) :
+    ∃ (max_iter : Int) (ε : ℝ) (fuel : ℕ) (out : List ℝ),
+      autoregressiveBisection (bnafInvFn act [auditBnafL0] none [] (bnafTransform act [auditBnafL0] none [1, -2] []))
+        (-10) 10 (1 / 1000) 2 max_iter fuel = some out ∧ out.length = 2 ∧
+      ∀ i, i < 2 → |out.getD i 0 - ([1, -2] : List ℝ).getD i 0| ≤ ε * (1 + |spC| / min spA spD) ^ i := by
+  set r : ℝ := (1 + |spC| / min spA spD) ^ 2 with hr
+  obtain ⟨k, hk⟩ := pow_unbounded_of_one_lt (20 + r) (one_lt_two (α := ℝ))
+  have hk' : 20 + r ≤ (2 : ℝ) ^ (k + 1) := by
+    have : (2 : ℝ) ^ k ≤ 2 ^ (k + 1) := pow_le_pow_right₀ (by norm_num) (Nat.le_succ k)
+    linarith
+  have hargs : inverterArgsOk (-10 : ℝ) 10 (1 / 1000) (k : Int) = true :=
+    (Bisection.inverterArgsOk_iff _ _ _ _).mpr ⟨by norm_num, by norm_num, by positivity⟩
+  have hε : max (1 / 1000 : ℝ) ((10 - (-10) + 0 + 1 * (1 + |spC| / min spA spD) ^ 2) / 2 ^ ((k : Int).toNat + 1)) ≤ 1 := by
+    refine max_le (by norm_num) ?_
+    rw [Int.toNat_natCast, div_le_one (by positivity)]
+    rw [← hr]; linarith
+  obtain ⟨out, h1, h2, h3⟩ := bnaf_inverse_tolerance act auditL0_ok [] [1, -2] rfl (auditL0_lip act) (1 / 1000) (k : Int) hargs
+    0 1 le_rfl (by intro i hi; interval_cases i <;> norm_num) hε
+    (max (Nat.clog 2 (⌈(0 + 1 * (1 + |spC| / min spA spD) ^ 2) / (10 - (-10))⌉₊ + 1)) (k : Int).toNat)
+    (le_max_left _ _) (le_max_right _ _)
+  exact ⟨k, 1, _, out, h1, h2, h3⟩
+
+/-- `gen_bnaf_inverse_of_exact`: `hy`, `hlen`, `hinv` are jointly satisfiable on the generated network of `bnafExample` (depth 1,
+activation `z ↦ z + z`) — with the degenerate inverter that returns the known preimage; the conclusion is then that the generated
+`inverse` returns it.  (Any honest inhabitant needs an inverter that already returns a preimage: the theorem adds only uniqueness.) -/
+theorem gen_bnaf_inverse_of_exact_audit_instance :
+    GenBnaf.inverse (netOf (fun z => (z + z, 0)) (fun z => z + z) 2 1 bnafExample (fun L _ => L.logJac) none (fun _ _ => [1, -4]))
+      (bnafTransform (fun z => z + z) bnafExample none [1, -4] []) none = [1, -4] := by
+  have hact : StrictMono (fun z : ℝ => z + z) := fun a b h => by simp only; linarith
+  have hy := BnafGenPf.gen_bnaf_transform_eq_model (fun z => (z + z, 0)) (fun z : ℝ => z + z) 2 1 bnafExample (by simp [bnafExample])
+    (fun L _ => L.logJac) none (fun _ _ => [1, -4]) [1, -4] none rfl
+  exact gen_bnaf_inverse_of_exact _ _ hact NetLawful.bnafExample_ok _ _ none rfl [1, -4] _ rfl hy rfl hy
+
+end Audit
+
 end C01
